@@ -346,6 +346,9 @@ structure Gene where
   region : Nat
   domains : List Domain
   hasMotifs : Bool
+  /-- position of the gene in the iteration order of `generate_domains` (all genes of all
+      regions, also those without domains) -/
+  index : Nat := 0
 deriving Repr
 
 structure GeneResult where
@@ -353,6 +356,7 @@ structure GeneResult where
   strand : Int
   region : Nat
   modules : List Module
+  index : Nat := 0
 deriving Repr
 
 /-- one iteration: `results` holds the genes handled so far (the last one is `prev` when
@@ -365,7 +369,7 @@ def chainGo : List Gene → List GeneResult → Bool → Except Err (List GeneRe
       match build g.domains g.name with
       | .error e => .error e
       | .ok modules =>
-        let info : GeneResult := ⟨g.name, g.strand, g.region, modules⟩
+        let info : GeneResult := ⟨g.name, g.strand, g.region, modules, g.index⟩
         match (if prevLive then results.getLast? else none) with
         | some prev =>
           if !prev.modules.isEmpty && !info.modules.isEmpty && prev.region == info.region then
